@@ -409,3 +409,72 @@ def must_pass_through(body, start, via, end):
     if start == via:
         return True
     return end not in body.fwd(start, cut_nodes=(via,))
+
+
+def loops_in(body):
+    """[(header_bb, entry_bb, iterator_local)] for every `for` loop (a next() call on an iterator local followed by the Some/None switch)"""
+    out = []
+    for bi, t in body.calls("iter::Iterator::next"):
+        if t["t"] is None:
+            continue
+        sw = body.blocks[t["t"]]
+        if sw["term"]["k"] != "switch":
+            continue
+        entry = None
+        for v, tgt in sw["term"]["targets"]:
+            if v == 1:
+                entry = tgt
+        if entry is None and [v for v, _ in sw["term"]["targets"]] == [0]:
+            entry = sw["term"]["otherwise"]
+        if entry is None:
+            continue
+        it = strip(body.origin(t["args"][0]))
+        out.append((bi, entry, it[1] if it[0] == "local" else None))
+    return out
+
+
+def loop_containing(body, bb):
+    """innermost `for` loop (header, entry, iter local) whose body contains block bb"""
+    best = None
+    for h, e, it in loops_in(body):
+        if body.dominates(e, bb) and h in body.fwd(bb):
+            if best is None or body.dominates(best[1], e):
+                best = (h, e, it)
+    return best
+
+
+def every_iteration_reaches(ctx, rule, body, site_bb, what, detail_bad, outer=0):
+    """T3 (must-pass-through): every iteration of the innermost loop around `site_bb` reaches it - i.e. no `continue`, pruning
+    or early exit can skip the site.  `outer` > 0 applies the rule to enclosing loops as well."""
+    lp = loop_containing(body, site_bb)
+    if lp is None:
+        ctx.ob(rule, body.name, what, "violation", "the site is no longer inside a loop: " + detail_bad, body.span_of(site_bb))
+        return False
+    h, e, it = lp
+    ok = must_pass_through(body, e, site_bb, h)
+    # leaving the loop (break / return) without passing the site also skips it for the remaining items: allowed only via the header's None edge
+    exits = set()
+    region = body.fwd(e, cut_nodes=(site_bb,))
+    for r in region:
+        for s in body.succ().get(r, []):
+            if h not in body.fwd(s) and s not in body.panic_blocks():
+                exits.add(s)
+    ok = ok and not exits
+    ctx.ob(rule, body.name, what, "ok" if ok else "violation",
+           "every iteration of the enclosing loop reaches it (no skipping path)" if ok else detail_bad, body.span_of(site_bb))
+    return ok
+
+
+def loop_carried_mutables(body, header, entry):
+    """names of locals defined outside the loop (header, entry) and mutated (assigned / mutably borrowed / used as call destination) inside it"""
+    inside = {b for b in body.fwd(entry) if header in body.fwd(b)} | {entry}
+    out = set()
+    for l in range(body.argc + 1, len(body.f["locals"])):
+        if not body.debug.get(l):
+            continue
+        defs = body.defs.get(l, [])
+        if not defs or all(d[0] in inside for d in defs):
+            continue            # defined inside only -> per-iteration
+        if any(d[0] not in inside for d in defs) and body.mutations_in(inside, l):
+            out.add(body.debug[l])
+    return out
